@@ -30,6 +30,8 @@ func c16Query() *rapid.Generator[string] {
 		rapid.SampledFrom([]string{"find files", "git commit", "docker ps", "FIND FILES", "x"}),
 		rapid.SampledFrom([]string{"find files", "git commit", "docker ps", "FIND FILES", "x"}),
 		rapid.String().Filter(utf8.ValidString),
+		// the validator lets invalid UTF-8 through, so the history is handed such queries too
+		rapid.SampledFrom([]string{"a\xe6", "zzqxj a\xe6", "\xff\xfe", "find \xc3", "ok \xe2\x82", "\x80\x80\x80", "caf\xe9"}),
 	)
 }
 
@@ -168,6 +170,7 @@ func TestC16_Log(t *testing.T) {
 		crossed, repeatAcross, loadedSinceAdd := false, false, false
 		saved := false
 		var savedModel []histEnt
+		var rawLog []string
 		reloads := 0
 		t.Repeat(map[string]func(*rapid.T){
 			"reload": func(t *rapid.T) {
@@ -186,11 +189,14 @@ func TestC16_Log(t *testing.T) {
 				steps = append(steps, "reload")
 			},
 			"add": func(t *rapid.T) {
-				e := histEnt{c16Query().Draw(t, "q"), rapid.IntRange(0, 50).Draw(t, "count"), rapid.SampledFrom([]string{"", "Git repository", "Go project (x)"}).Draw(t, "ctx"), int64(rapid.IntRange(0, 3000).Draw(t, "ms"))}
-				if len(model) > 0 && rapid.IntRange(0, 3).Draw(t, "repeat") == 0 {
-					e.q = model[len(model)-1].q
+				raw := c16Query().Draw(t, "q")
+				if len(rawLog) > 0 && rapid.IntRange(0, 3).Draw(t, "repeat") == 0 {
+					raw = rawLog[len(rawLog)-1] // the same query again, as it was typed
 				}
-				sh.AddEntry(e.q, e.count, e.ctx, time.Duration(e.durMs)*time.Millisecond+time.Duration(rapid.IntRange(0, 999).Draw(t, "us"))*time.Microsecond)
+				rawLog = append(rawLog, raw)
+				// the reference log holds a query in the form it reads back from the file (JSON has no invalid UTF-8)
+				e := histEnt{jsonRoundTrip(raw), rapid.IntRange(0, 50).Draw(t, "count"), rapid.SampledFrom([]string{"", "Git repository", "Go project (x)"}).Draw(t, "ctx"), int64(rapid.IntRange(0, 3000).Draw(t, "ms"))}
+				sh.AddEntry(raw, e.count, e.ctx, time.Duration(e.durMs)*time.Millisecond+time.Duration(rapid.IntRange(0, 999).Draw(t, "us"))*time.Microsecond)
 				steps = append(steps, fmt.Sprintf("add(%q)", clip(e.q)))
 				if len(model) > 0 && model[len(model)-1].q == e.q {
 					model[len(model)-1] = e
@@ -291,7 +297,9 @@ func c16File(t *rapid.T) ([]byte, bool) {
 	case 0:
 		return rapid.SliceOfN(rapid.Byte(), 0, 80).Draw(t, "bytes"), false
 	case 1:
-		return []byte(rapid.SampledFrom([]string{"", "null", "[]", "{}", "42", `"x"`, "{", `{"entries":`, `{"entries":null,"max_size":null}`}).Draw(t, "lit")), true
+		return []byte(rapid.SampledFrom([]string{"", "null", "[]", "{}", "42", `"x"`, "{", `{"entries":`, `{"entries":null,"max_size":null}`,
+			// one to four bytes: cut-off byte order marks and the first bytes of JSON values
+			"\xef", "\xef\xbb", "\xef\xbb\xbf", "\xef\xbb\xbf{}", "\xfe", "\xfe\xff", "\xff\xfe", "\xff", "[", "n", "nu", "t", "\"", "-", "0", " ", "\n", "\x00", "\x00\x00", "{\"", "\xef\xbb\xbf{\"entries\":[],\"max_size\":3}"}).Draw(t, "lit")), true
 	}
 	maxSize := rapid.SampledFrom([]string{"-5", "0", "1", "2", "100", "1000000000", `"x"`, "null", "1e3", "-1", "1.5", "9223372036854775807", "-9223372036854775808"}).Draw(t, "max_size")
 	var ents []string
